@@ -290,6 +290,41 @@ func jShape(e js.IExpr) string {
 	switch x := e.(type) {
 	case *js.GroupExpr:
 		return jShape(x.X)
+	case *js.CallExpr:
+		out := "call"
+		if x.Optional {
+			out += "?"
+		}
+		out += "(" + jChainBase(x.X, x.Optional)
+		for _, a := range x.Args.List {
+			out += ";" + jShape(a.Value)
+		}
+		return out + ")"
+	case *js.DotExpr:
+		o := ""
+		if x.Optional {
+			o = "?"
+		}
+		return "dot" + o + "(" + jChainBase(x.X, x.Optional) + ";" + string(x.Y.Data) + ")"
+	case *js.IndexExpr:
+		o := ""
+		if x.Optional {
+			o = "?"
+		}
+		return "idx" + o + "(" + jChainBase(x.X, x.Optional) + ";" + jShape(x.Y) + ")"
+	case *js.NewExpr:
+		out := "new(" + jShape(x.X)
+		if x.Args != nil {
+			for _, a := range x.Args.List {
+				out += ";" + jShape(a.Value)
+			}
+		}
+		return out + ")"
+	case *js.TemplateExpr:
+		if x.Tag != nil {
+			return "tag(" + jChainBase(x.Tag, false) + ")"
+		}
+		return "tmpl"
 	case *js.Var:
 		return string(x.Name())
 	case *js.LiteralExpr:
@@ -650,4 +685,64 @@ func VerifJSParens(n int) {
 	vAssert(ok2, "output parses to one expression statement")
 	vAssert(got == want, "same expression tree: "+string(src)+" => "+string(w.buf))
 	vReach("end")
+}
+
+// jOptChain: does the member / call chain at the top of e contain an optional link
+func jOptChain(e js.IExpr) bool {
+	switch x := e.(type) {
+	case *js.DotExpr:
+		return x.Optional || jOptChain(x.X)
+	case *js.IndexExpr:
+		return x.Optional || jOptChain(x.X)
+	case *js.CallExpr:
+		return x.Optional || jOptChain(x.X)
+	case *js.TemplateExpr:
+		return x.Tag != nil && jOptChain(x.Tag)
+	}
+	return false
+}
+
+var jPostInner = []string{"a?.b", "a?.()", "a?.[b]", "a?.b.c", "a()", "a.b", "new a", "new a()", "new a.b", "a=b", "a,b", "a?b:c", "-a", "a+b", "a??b", "a||b", "function(){}", "()=>a", "a++", "typeof a", "void a", "a`t`", "{}", "[]", "1", "1.5", "\"s\"", "/re/", "class{}", "new.target", "a?.b?.c", "await a", "yield a"}
+var jPostfix = []string{"()", ".c", "[c]", "`t`", "?.c", "?.()", "(c)", ".c()", "++", "**c"}
+
+// VerifJSGroupPostfix (C01/C09): x=(INNER)POST for 33 inner forms (optional chains, new with and without arguments,
+// assignments, arrows, literals ...) and 10 postfix forms: parentheses are only dropped where the tree stays the same
+// (an optional chain ends at its parentheses, `new a` binds differently from `new a()` ...).
+func VerifJSGroupPostfix(n int) {
+	inner := jPostInner[vChoice("inner", len(jPostInner))]
+	post := jPostfix[vChoice("post", len(jPostfix))]
+	vAssume(!((inner == "1" || inner == "1.5" || inner == "\"s\"" || inner == "/re/" || inner == "{}" || inner == "[]") && len(post) > 1 && post[0] == '?')) // an optional access on a value that is never nullish may become a plain one
+	src := []byte("x=(" + inner + ")" + post + ";")
+	want, ok := jShapeOf(src)
+	vAssume(ok)
+	w := &vWriter{}
+	err := (&Minifier{}).Minify(nil, w, &vReader{b: append([]byte(nil), src...)}, nil)
+	vReach("after-call")
+	vOutput("out", w.buf)
+	vAssert(err == nil, "accepted")
+	got, ok2 := jShapeOf(append([]byte(nil), w.buf...))
+	vAssert(ok2, "output parses to one expression statement: "+string(src)+" => "+string(w.buf))
+	if got != want {
+		jIgnoreChainGroups = true
+		flat, _ := jShapeOf(src)
+		jIgnoreChainGroups = false
+		if got == flat {
+			// recorded finding: the parentheses that end an optional chain are dropped: (a?.b).c -> a?.b.c, (a?.b)() -> a?.b();
+			// the pinned suite expects exactly that (`(a?.b.c).d` -> `a?.b.c.d`), so the repair cannot be a fix: commit
+			vKnown("C01-F79")
+		}
+	}
+	vAssert(got == want, "same expression tree: "+string(src)+" => "+string(w.buf)+" : "+want+" vs "+got)
+	vReach("end")
+}
+
+// jChainBase: the base of a member access / call: parentheses around an optional chain end the chain, which matters
+// when the access that follows is not optional itself: (a?.b).c throws for a nullish a, a?.b.c does not.
+var jIgnoreChainGroups bool
+
+func jChainBase(e js.IExpr, optional bool) string {
+	if g, ok := e.(*js.GroupExpr); ok && !optional && !jIgnoreChainGroups && jOptChain(g.X) {
+		return "grp(" + jShape(g.X) + ")"
+	}
+	return jShape(e)
 }
